@@ -40,7 +40,7 @@ for pid in sys.argv[1:]:
                     os.rename(d, d + ".covsaved")
                 shutil.copyfile(src, d)
         binp = os.path.join(work, "u_%s.test" % unit["name"])
-        r = subprocess.run(["go", "test", "-c", "-o", binp, "-tags", "verif", "-vet=off", "-cover", "-covermode=set",
+        r = subprocess.run(["go", "test", "-c", "-o", binp, "-tags", vrun.unit_tags(unit), "-vet=off", "-cover", "-covermode=set",
                             "-coverpkg=mosn.io/mosn/pkg/...", "./" + unit["pkg"]], cwd=copy, env=vrun.ENV, capture_output=True, text=True)
         if r.returncode != 0:
             print("build failed for unit", unit["name"], (r.stdout + r.stderr)[-1500:])
